@@ -30,7 +30,8 @@ NON_RAISING = {
     "inspect.isclass", "inspect.iscoroutine", "inspect.isawaitable", "inspect.iscoroutinefunction",
     "inspect.isasyncgenfunction", "typing.get_origin", "typing.get_args", "typing.cast",
     # logging
-    "logger.debug", "logger.info", "logger.warning", "logger.error", "logger.exception",
+    "logger.debug", "logger.info", "logger.warning", "logger.error", "logger.exception", "logger.critical",
+    "logger.log", "logger.isEnabledFor", "logger.getEffectiveLevel", "logging.getLogger",
     # registration only
     "contextlib.AsyncExitStack", "contextlib.AsyncExitStack.callback", "contextlib.AsyncExitStack.push_async_callback",
     "contextlib.AsyncExitStack.push_async_exit", "contextlib.AsyncExitStack.pop_all",
@@ -49,7 +50,7 @@ NON_RAISING_METHODS = {
     "get", "items", "keys", "values", "copy", "setdefault", "append", "add", "discard", "update",
     "extend", "startswith", "endswith", "format", "join", "split", "replace", "rstrip", "strip", "lstrip",
     "upper", "lower", "capitalize", "partition", "rpartition", "clear", "debug", "info", "warning",
-    "error", "exception", "fullmatch", "match", "isidentifier", "set", "cancel", "insert", "count",
+    "error", "exception", "critical", "isEnabledFor", "getEffectiveLevel", "fullmatch", "match", "isidentifier", "set", "cancel", "insert", "count",
 }
 
 MUTATING_METHODS = {
